@@ -113,6 +113,17 @@ theorem binEqual_shape_independent (X : Ctx) (hX : X.Coherent) (i j : Nat) (ra r
     valuesEqual X (.bin (.heap i)) (.bin (.heap j)) = true ↔ ra.toVec = rb.toVec := by
   simp [valuesEqual, binEqual_eq X hX.2, Ctx.bytesOf, Ctx.heapBytes, hi, hj]
 
+/-- The heap clause of `Ctx.Coherent` is an invariant of the allocation API: the smart constructors
+behind `binary_concat` / `binary_slice` / `binary_repeat` (and `Owned` / `Zeroed` trivially) return
+ropes that store their true length and flatten to the expected bytes. -/
+theorem constructors_preserve_LenOK (l r : Rope) (hl : l.LenOK) (hr : r.LenOK) :
+    (Rope.mkConcat l r).LenOK ∧
+    (∀ off n s, Rope.mkSlice l off n = some s → s.LenOK ∧ s.toVec = (l.toVec.drop off).take n) ∧
+    (∀ c, (Rope.mkTiled l c).len ≤ maxBinarySize →
+      (Rope.mkTiled l c).LenOK ∧ (Rope.mkTiled l c).toVec = (List.replicate c l.toVec).flatten) :=
+  ⟨(Rope.mkConcat_ok l r hl hr).1, fun off n s h => Rope.mkSlice_ok l off n hl s h,
+   fun c h => Rope.mkTiled_ok l c hl h⟩
+
 /-- The same bytes tiled under three factorisations, zero-filled vs tiled zero, a slice of a concat:
 all equal (the situation a shape-based fast path gets wrong). -/
 example :
